@@ -229,3 +229,238 @@ Qed.
 Example C01_ex_segments_run :
   snd (run_segments ex_view ex_segs) = [RErr ENotFound; ROk; RVal [1]; ROk; RErr ENotFound].
 Proof. vm_compute. reflexivity. Qed.
+
+(* ==== composition with property C08: the executor only produces conflict-respecting schedules ====
+
+   C01_executor_schedules above ASSUMES that the schedule keeps the executor's conflicting pairs in
+   block order.  Props/C08.v PROVES, for every trace of the labelled transition system of
+   internal/executor/executor.go (Model/Executor.v: any interleaving of the lock regions, any number of
+   workers), that a task body begins only after the body of every earlier conflicting task ended.  The
+   theorems below compose the two (proofs in Proofs/ExecCompose_proofs.v, which uses C08_once,
+   C08_order_code, C08_all_run, C08_done_stuck as stated in Props/C08.v):
+
+     [task_of enc sk]       the executor model's task for the Go map sk : state.Keys — the list of its
+                            (key, permission) pairs, keys numbered by ANY injection enc : key -> N
+                            (the executor model's keys are numbers, C01's keys are byte strings);
+     [tasks_of enc ptxs]    one task per prepared transaction, in block order (chain/processor.go
+                            executeTxs: `for li, ltx := range b.StatelessBlock.Txs`, line 250, calls
+                            `e.Run(stateKeys, func() error {...})`, line 278, once per transaction with
+                            the `stateKeys` returned by tx.StateKeys, line 253);
+     [block_tasks enc txs]  the same from the block's transactions ([state_keys t]);
+     [begin_order (log s)]  the task ids in the order in which their bodies began in the run that led
+                            to the executor state s (Executor.log is newest-first; begin_order reverses).
+
+   What is still assumed, outside these theorems (unchanged from C01's other theorems, but now only this):
+   (1) a task body (the closure passed to e.Run: f.Get, NewView, PreExecute, Execute, Commit,
+       processor.go 278-311) is [Chain.run_tx] on the block-level TState as it is when the body runs
+       relative to the CONFLICTING tasks; that is legitimate because conflicting bodies never overlap
+       (C08_order_code: EvEnd i precedes EvBegin j) and commits of non-conflicting, possibly
+       overlapping bodies are invisible to it (C01_nonconflicting_commits_invisible for whole tasks,
+       C01_interleaved_commits_snapshot_free for commits between two of its view operations, each
+       view operation / Commit being atomic under the TState lock);
+   (2) the processor uses the executor as [tasks_of]/[block_tasks] say (read off processor.go 243-316:
+       executor.New(numTxs, cores, MaxKeyDependencies = 100000000, ...), one Run per transaction in
+       block order, e.Wait() == nil is "all_done and err = None"); the differential check of C01
+       exercises exactly this code under several core counts;
+   (3) Model/Executor.v is a faithful LTS of executor.go (tied to the Go code by C08's trace
+       validation). *)
+From HV Require Model.Executor Proofs.Executor_proofs.
+From HV Require Import Proofs.ExecCompose_proofs.
+
+(* ---- the encoding satisfies the executor's contract ------------------------------------------
+   Keys of one task pairwise distinct (state.Keys is a map; needs enc injective) and
+   #tasks <= maxDependencies: [cfg_ok], the hypothesis of every C08 theorem. *)
+Theorem C01_tasks_of_contract : forall (enc : key -> N), Inj (=) (=) enc ->
+  forall (ptxs : list ptx) (maxd : Z) (nw : nat), (Z.of_nat (length ptxs) <= maxd)%Z ->
+  Executor_proofs.cfg_ok (Executor.mkC (tasks_of enc ptxs) maxd nw).
+Proof. intros enc Henc. exact (tasks_of_cfg_ok enc). Qed.
+Print Assumptions C01_tasks_of_contract.
+
+Theorem C01_block_tasks_contract : forall (enc : key -> N), Inj (=) (=) enc ->
+  forall (txs : list tx) (maxd : Z) (nw : nat), (Z.of_nat (length txs) <= maxd)%Z ->
+  Executor_proofs.cfg_ok (Executor.mkC (block_tasks enc txs) maxd nw).
+Proof. intros enc Henc. exact (block_tasks_cfg_ok enc). Qed.
+Print Assumptions C01_block_tasks_contract.
+
+(* [prepare] hands the executor exactly the state keys of the block's transactions *)
+Theorem C01_tasks_of_prepared : forall (enc : key -> N) r fm txs ptxs fm',
+  prepare r fm txs = inl (ptxs, fm') -> tasks_of enc ptxs = block_tasks enc txs.
+Proof. exact tasks_of_prepared. Qed.
+Print Assumptions C01_tasks_of_prepared.
+
+(* ---- the executor's conflict relation on the encoded tasks IS exec_conflict ------------------- *)
+Theorem C01_conflict_encoding : forall (enc : key -> N), Inj (=) (=) enc ->
+  forall a b : gmap key perm,
+  Executor.conflict (task_of enc a) (task_of enc b) = exec_conflict a b.
+Proof. intros enc Henc. exact (conflict_enc enc). Qed.
+Print Assumptions C01_conflict_encoding.
+
+(* ---- EVERY reachable executor state: the begin order respects the block's conflicts ----------
+   No completeness / no-failure hypothesis: any prefix of any run, with failing bodies and Stop calls. *)
+Theorem C01_executor_trace_respects : forall (enc : key -> N), Inj (=) (=) enc ->
+  forall (ptxs : list ptx) c tr s,
+  Executor.c_ts c = tasks_of enc ptxs -> Executor_proofs.cfg_ok c -> Executor.steps c Executor.init tr s ->
+  respects_with exec_conflict ptxs (begin_order (Executor.log s)).
+Proof. intros enc Henc. exact (trace_respects enc). Qed.
+Print Assumptions C01_executor_trace_respects.
+
+Theorem C01_executor_trace_respects_block : forall (enc : key -> N), Inj (=) (=) enc ->
+  forall (txs : list tx) c tr s,
+  Executor.c_ts c = block_tasks enc txs -> Executor_proofs.cfg_ok c -> Executor.steps c Executor.init tr s ->
+  respects_block_with exec_conflict txs (begin_order (Executor.log s)).
+Proof. intros enc Henc. exact (trace_respects_block enc). Qed.
+Print Assumptions C01_executor_trace_respects_block.
+
+(* ... and it is a duplicate-free list of block positions (every reachable state) *)
+Theorem C01_executor_trace_schedule_wf : forall c tr s,
+  Executor_proofs.cfg_ok c -> Executor.steps c Executor.init tr s ->
+  NoDup (begin_order (Executor.log s)) /\
+  forall i, i ∈ begin_order (Executor.log s) -> (i < length (Executor.c_ts c))%nat.
+Proof.
+  intros c tr s Hc Hst. split; [exact (trace_begins_nodup c tr s Hc Hst)|].
+  intros i Hi. apply (trace_begun_lt c tr s Hc Hst), begin_order_in, Hi.
+Qed.
+Print Assumptions C01_executor_trace_schedule_wf.
+
+(* ---- complete runs without error (e.Wait() returned nil): a permutation of the positions ------ *)
+Theorem C01_executor_complete_run_permutation : forall (enc : key -> N),
+  forall (ptxs : list ptx) c tr s,
+  Executor.c_ts c = tasks_of enc ptxs -> Executor_proofs.cfg_ok c -> Executor.steps c Executor.init tr s ->
+  Executor.all_done c s -> Executor.err s = None ->
+  begin_order (Executor.log s) ≡ₚ seq 0 (length ptxs).
+Proof. exact trace_perm. Qed.
+Print Assumptions C01_executor_complete_run_permutation.
+
+(* ---- THE COMPOSED THEOREM ----------------------------------------------------------------------
+   For all rules, parents, blocks: take ANY run of the executor LTS over the block's tasks (any worker
+   count, any interleaving of registration, workers and notifications) that is complete and recorded no
+   error.  Executing the block's transactions in the order in which the executor started them gives
+   exactly the verdict, results, block diff, metadata, prices and units of sequential execution. *)
+Theorem C01_C08_composed : forall (enc : key -> N), Inj (=) (=) enc ->
+  forall r mk p b c tr s,
+  Executor.c_ts c = block_tasks enc (b_txs b) -> Executor_proofs.cfg_ok c ->
+  Executor.steps c Executor.init tr s -> Executor.all_done c s -> Executor.err s = None ->
+  execute_block_sched r mk p b (begin_order (Executor.log s)) = execute_block r mk p b.
+Proof. intros enc Henc. exact (composed_block enc). Qed.
+Print Assumptions C01_C08_composed.
+
+(* the same with the executor configuration spelled out: only the documented constructor contract
+   (#txs <= maxDependencies) remains as a hypothesis on the configuration *)
+Theorem C01_C08_composed_any_workers : forall (enc : key -> N), Inj (=) (=) enc ->
+  forall r mk p b (maxd : Z) (nw : nat) tr s,
+  (Z.of_nat (length (b_txs b)) <= maxd)%Z ->
+  Executor.steps (Executor.mkC (block_tasks enc (b_txs b)) maxd nw) Executor.init tr s ->
+  Executor.all_done (Executor.mkC (block_tasks enc (b_txs b)) maxd nw) s -> Executor.err s = None ->
+  execute_block_sched r mk p b (begin_order (Executor.log s)) = execute_block r mk p b.
+Proof.
+  intros enc Henc r mk p b maxd nw tr s Hm Hst Hd He.
+  apply (composed_block enc) with (c := Executor.mkC (block_tasks enc (b_txs b)) maxd nw) (tr := tr);
+    [reflexivity | apply (block_tasks_cfg_ok enc), Hm | exact Hst | exact Hd | exact He].
+Qed.
+Print Assumptions C01_C08_composed_any_workers.
+
+(* stated on the trace instead of the final error register: no Stop call and no failing body *)
+Theorem C01_C08_composed_clean_trace : forall (enc : key -> N), Inj (=) (=) enc ->
+  forall r mk p b c tr s,
+  Executor.c_ts c = block_tasks enc (b_txs b) -> Executor_proofs.cfg_ok c -> (1 <= Executor.c_nw c)%nat ->
+  Executor.steps c Executor.init tr s -> Executor.all_done c s ->
+  ~ In Executor.LStop tr -> (forall t, ~ In (Executor.LFEnd t false) tr) ->
+  execute_block_sched r mk p b (begin_order (Executor.log s)) = execute_block r mk p b.
+Proof.
+  intros enc Henc r mk p b c tr s Hts Hc Hnw Hst Hd Hstop Hfail.
+  apply (composed_block enc) with (c := c) (tr := tr); try assumption.
+  exact (proj1 (clean_trace_all_begun c tr s Hc Hst Hnw Hd Hstop Hfail)).
+Qed.
+Print Assumptions C01_C08_composed_clean_trace.
+
+(* the task loop alone (prepared transactions): final block-level TState, results and task errors *)
+Theorem C01_C08_composed_task_loop : forall (enc : key -> N), Inj (=) (=) enc ->
+  forall r fm parent ts st (ptxs : list ptx) c tr s,
+  Executor.c_ts c = tasks_of enc ptxs -> Executor_proofs.cfg_ok c ->
+  Executor.steps c Executor.init tr s -> Executor.all_done c s -> Executor.err s = None ->
+  par_block r fm parent ts st ptxs (begin_order (Executor.log s)) = run_txs r fm parent ts st ptxs.
+Proof. intros enc Henc. exact (composed_task_loop enc). Qed.
+Print Assumptions C01_C08_composed_task_loop.
+
+(* ---- non-vacuity of the composition -------------------------------------------------------------
+   The 3-transaction block above (tx0 and tx2 write kA, tx1 touches kB; every tx also declares its
+   sponsor's balance key).  Keys are numbered by stdpp's injective encoding of byte strings. *)
+Definition enc_key (k : key) : N := Npos (countable.encode k).
+Global Instance enc_key_inj : Inj (=) (=) enc_key.
+Proof. intros x y H. unfold enc_key in H. inversion H as [H1]. apply (inj countable.encode) in H1. exact H1. Qed.
+
+Definition ex_tasks : list Executor.task := block_tasks enc_key ex_txs.
+Definition ex_cfg : Executor.cfg := Executor.mkC ex_tasks 100000000 2.
+
+(* two workers; all three transactions are registered (Run: one LRunKey per declared key), task 2 waits
+   for task 0 (both write kA); the workers take 0 and 1, the body of 1 starts BEFORE the body of 0 and
+   the two overlap; 2 starts after 0 notified it *)
+Definition ex_trace : list Executor.label :=
+  (flat_map Executor.reg_labels ex_tasks ++
+  [Executor.LTake; Executor.LTake; Executor.LCheck 1; Executor.LCheck 0;
+   Executor.LFEnd 1 true; Executor.LFEnd 0 true; Executor.LSetErr 0; Executor.LSetErr 1;
+   Executor.LNotify 0; Executor.LNotify 1;
+   Executor.LTake; Executor.LCheck 2; Executor.LFEnd 2 true; Executor.LSetErr 2; Executor.LNotify 2])%nat.
+
+(* the encoded tasks: same conflicts as computed on the key maps (C01_ex_conflicts) *)
+Example C01_ex_tasks :
+  map (map snd) ex_tasks = [[pWrite; pAll]; [pAll; pWrite]; [pWrite; pAll]] /\
+  Executor.conflict (nth 0 ex_tasks []) (nth 2 ex_tasks []) = true /\
+  Executor.conflict (nth 0 ex_tasks []) (nth 1 ex_tasks []) = false /\
+  Executor.conflict (nth 1 ex_tasks []) (nth 2 ex_tasks []) = false /\
+  tx_conflict_at exec_conflict ex_txs 0 2 = true /\ tx_conflict_at exec_conflict ex_txs 0 1 = false /\
+  tx_conflict_at exec_conflict ex_txs 1 2 = false.
+Proof. vm_compute. repeat split; reflexivity. Qed.
+
+Example C01_ex_cfg_ok : Executor_proofs.cfg_ok ex_cfg.
+Proof. apply (C01_block_tasks_contract enc_key _ ex_txs). vm_compute. intros H. discriminate H. Qed.
+
+(* the trace is accepted by the executor LTS, ends in a final state without error, and the bodies began
+   in the order 1, 0, 2 *)
+Example C01_ex_run : exists s,
+  Executor.steps ex_cfg Executor.init ex_trace s /\ Executor.all_done ex_cfg s /\ Executor.err s = None /\
+  Executor.log s = [Executor.EvEnd 2 true; Executor.EvBegin 2; Executor.EvEnd 0 true; Executor.EvEnd 1 true;
+                    Executor.EvBegin 0; Executor.EvBegin 1]%nat /\
+  begin_order (Executor.log s) = [1; 0; 2]%nat.
+Proof.
+  destruct (Executor_proofs.run_labels_witness ex_cfg ex_trace
+              (fun s => Executor_proofs.all_doneb ex_cfg s = true /\ Executor.err s = None /\
+                 Executor.log s = [Executor.EvEnd 2 true; Executor.EvBegin 2; Executor.EvEnd 0 true;
+                                   Executor.EvEnd 1 true; Executor.EvBegin 0; Executor.EvBegin 1]%nat /\
+                 begin_order (Executor.log s) = [1; 0; 2]%nat)) as (s & Hst & Hd & He & Hl & Hb).
+  { vm_compute. repeat split; reflexivity. }
+  exists s. apply Executor_proofs.all_doneb_ok in Hd. auto.
+Qed.
+
+(* the instance of the composed theorem: the schedule produced by that executor run gives the
+   sequential outcome (it is the schedule [1;0;2] of C01_ex_outcome) *)
+Example C01_ex_composed : exists s,
+  Executor.steps ex_cfg Executor.init ex_trace s /\ begin_order (Executor.log s) = [1; 0; 2]%nat /\
+  execute_block_sched ex_rules ex_meta (ex_parent ex_fee []) ex_block (begin_order (Executor.log s))
+  = execute_block ex_rules ex_meta (ex_parent ex_fee []) ex_block.
+Proof.
+  destruct C01_ex_run as (s & Hst & Hd & He & _ & Hb). exists s. split; [exact Hst|]. split; [exact Hb|].
+  apply (C01_C08_composed enc_key _) with (c := ex_cfg) (tr := ex_trace);
+    [reflexivity | exact C01_ex_cfg_ok | exact Hst | exact Hd | exact He].
+Qed.
+
+(* the every-reachable-state theorem on a run that is neither complete nor error-free: the body of
+   task 0 fails, a Stop is called, task 2 never starts *)
+Definition ex_trace_fail : list Executor.label :=
+  (flat_map Executor.reg_labels ex_tasks ++
+  [Executor.LTake; Executor.LTake; Executor.LCheck 1; Executor.LCheck 0;
+   Executor.LFEnd 0 false; Executor.LSetErr 0; Executor.LStop; Executor.LNotify 0;
+   Executor.LTake; Executor.LCheck 2])%nat.
+Example C01_ex_failing_prefix : exists s,
+  Executor.steps ex_cfg Executor.init ex_trace_fail s /\ Executor.err s = Some (Executor.ETask 0%nat) /\
+  begin_order (Executor.log s) = [1; 0]%nat /\
+  respects_block_with exec_conflict ex_txs (begin_order (Executor.log s)).
+Proof.
+  destruct (Executor_proofs.run_labels_witness ex_cfg ex_trace_fail
+              (fun s => Executor.err s = Some (Executor.ETask 0%nat) /\
+                        begin_order (Executor.log s) = [1; 0]%nat)) as (s & Hst & He & Hb).
+  { vm_compute. split; reflexivity. }
+  exists s. split; [exact Hst|]. split; [exact He|]. split; [exact Hb|].
+  apply (C01_executor_trace_respects_block enc_key _) with (c := ex_cfg) (tr := ex_trace_fail);
+    [reflexivity | exact C01_ex_cfg_ok | exact Hst].
+Qed.
